@@ -46,7 +46,26 @@ fn build_schema(spec: &J) -> Result<Built, String> {
 		let schema: Schema = graph.clone().freeze().map_err(|e| format!("freeze: {e}"))?;
 		Ok(Built { graph, schema })
 	} else {
-		let graph = schema_mut_from_json(&spec["nodes"])?;
+		let mut graph = schema_mut_from_json(&spec["nodes"])?;
+		if spec.get("via_edit").and_then(|b| b.as_bool()).unwrap_or(false) {
+			// reach the same graph through a history: a different graph first (one field renamed), its fingerprint and JSON
+			// asked for, then the edit through nodes_mut() that makes it the wanted graph, then freeze
+			let at = graph.nodes().iter().position(|n| matches!(&n.type_, serde_avro_fast::schema::RegularType::Record(r) if !r.fields.is_empty()));
+			if let Some(at) = at {
+				let original = match &graph.nodes()[at].type_ {
+					serde_avro_fast::schema::RegularType::Record(r) => r.fields[0].name.clone(),
+					_ => unreachable!(),
+				};
+				if let serde_avro_fast::schema::RegularType::Record(r) = &mut graph.nodes_mut()[at].type_ {
+					r.fields[0].name = format!("{original}_before_edit");
+				}
+				let _ = graph.canonical_form_rabin_fingerprint();
+				let _ = serde_json::to_string(&graph);
+				if let serde_avro_fast::schema::RegularType::Record(r) = &mut graph.nodes_mut()[at].type_ {
+					r.fields[0].name = original;
+				}
+			}
+		}
 		let schema = graph.clone().freeze().map_err(|e| format!("freeze: {e}"))?;
 		Ok(Built { graph, schema })
 	}
@@ -453,7 +472,7 @@ fn op_schema_build(cmd: &J) -> Result<J, String> {
 				match edit {
 					"rename_field" => {
 						for n in nodes.iter_mut() {
-							if let RegularType::Record(r) = &mut n.type_ {
+							if let serde_avro_fast::schema::RegularType::Record(r) = &mut n.type_ {
 								if let Some(f) = r.fields.first_mut() {
 									f.name.push_str("_renamed");
 									break;
@@ -471,7 +490,7 @@ fn op_schema_build(cmd: &J) -> Result<J, String> {
 					}
 					"swap_fields" => {
 						for n in nodes.iter_mut() {
-							if let RegularType::Record(r) = &mut n.type_ {
+							if let serde_avro_fast::schema::RegularType::Record(r) = &mut n.type_ {
 								if r.fields.len() >= 2 {
 									r.fields.swap(0, 1);
 									break;
